@@ -81,6 +81,43 @@ Proof.
   apply (proj1 (subsetb_spec pred_dec _ _) H) in Hq. apply in_iset_extend in Hq. destruct Hq as [[]|Hq]. exact Hq.
 Qed.
 
+(* ---------- the premise ug_over_inputs of C02_countermodel_complete / C02_external_equivalence follows
+              from acceptance (audit2 B9) ---------- *)
+Section AcceptedUg.
+Variable fuel : nat.
+Lemma accepted_task_ug_over_inputs t w pbs : external_decompose_full fuel t = XOk w pbs -> ug_over_inputs t.
+Proof.
+  intros Hfull. destruct (full_ok_inv fuel t w pbs Hfull) as [[w0 Hv] _].
+  destruct (validate_conditions _ _ t w0 Hv) as [_ [_ [_ [_ [Hugi _]]]]]. exact (accepted_ug_over_inputs t Hugi).
+Qed.
+Theorem countermodel_complete_accepted t L w pbs lft rgt :
+  et_specification t = inl L -> et_proof_outline t = [] ->
+  external_decompose_full fuel t = XOk w pbs ->
+  is_tight L = true -> is_tight (et_program t) = true ->
+  task_left tau_star_total completion (simp_classic_total fuel) t L = Some lft ->
+  task_right tau_star_total completion (simp_classic_total fuel) t = Some rgt ->
+  (forall vt, task_validated tau_star_total completion (simp_classic_total fuel) t = Some vt -> validated_no_clash vt) ->
+  rename_faithful t L ->
+  forall FI T, behavioural_difference t L FI T -> exists M, pub_agree t M T /\ refutes_some FI M pbs.
+Proof.
+  intros Hs Ho Hfull HtL HtR El Er Hn Hrf.
+  exact (countermodel_complete fuel t L w pbs lft rgt Hs Ho Hfull HtL HtR El Er Hn Hrf (accepted_task_ug_over_inputs t w pbs Hfull)).
+Qed.
+Theorem external_equivalence_accepted t L w pbs lft rgt :
+  et_specification t = inl L -> et_proof_outline t = [] ->
+  external_decompose_full fuel t = XOk w pbs ->
+  is_tight L = true -> is_tight (et_program t) = true ->
+  task_left tau_star_total completion (simp_classic_total fuel) t L = Some lft ->
+  task_right tau_star_total completion (simp_classic_total fuel) t = Some rgt ->
+  (forall vt, task_validated tau_star_total completion (simp_classic_total fuel) t = Some vt -> validated_no_clash vt) ->
+  rename_faithful t L ->
+  forall FI, (exists M, refutes_some FI M pbs) <-> (exists T, behavioural_difference t L FI T).
+Proof.
+  intros Hs Ho Hfull HtL HtR El Er Hn Hrf.
+  exact (external_equivalence_iff fuel t L w pbs lft rgt Hs Ho Hfull HtL HtR El Er Hn Hrf (accepted_task_ug_over_inputs t w pbs Hfull)).
+Qed.
+End AcceptedUg.
+
 Section Public.
 Variable fuel : nat.
 Notation translate := (theory_translate tau_star_total completion (simp_classic_total fuel)).
